@@ -98,7 +98,7 @@ func tryExpr(r *harness.Run, text string, docs []interface{}, sigPrefix string) 
 }
 
 func checkC05(r *harness.Run) harness.Coverage {
-	r.Rule = "(1) every string of up to n symbols over a 50-symbol alphabet with one member per lexer character class and class boundary (incl. NUL, DEL, U+0080, U+0081, U+00FF, U+07FF, U+0800, U+FFFF, U+10000, U+10FFFF and invalid UTF-8 bytes); (2) the pumping family u^k v w^k up to 64 KiB; (3) every sentence of the function / projection / core universes plus hostile leaves (extreme integers, empty quoted identifier, non-ASCII and invalid-UTF-8 raw strings) x 30 documents of every JSON type. Oracle: Compile and Search return (recover() per case, watchdog per case). Non-trivial = the string compiles, or is rejected after the first symbol; distinct by string"
+	r.Rule = "(1) every string of up to n symbols over a 50-symbol alphabet with one member per lexer character class and class boundary (incl. NUL, DEL, U+0080, U+0081, U+00FF, U+07FF, U+0800, U+FFFF, U+10000, U+10FFFF and invalid UTF-8 bytes); (2) the pumping family u^k v w^k up to 64 KiB; (3) every sentence of the function / projection / core universes plus hostile leaves (extreme integers, empty quoted identifier, non-ASCII and invalid-UTF-8 raw strings), plus sentences with expression references in every operand position, x 30 documents of every JSON type. Oracle: Compile and Search return (recover() per case, watchdog per case). Non-trivial = the string compiles, or is rejected after the first symbol; distinct by string"
 	r.Assumptions = []string{"exhaustive for the stated alphabet and length only; longer inputs are represented by the pumping family", "termination is judged by a per-case watchdog of 120 s (legitimate cases take microseconds) here, and by a deterministic statement budget in the instrumented pass of C06/C13"}
 	n := 3
 	if r.Thorough() {
@@ -197,11 +197,25 @@ func checkC05(r *harness.Run) harness.Coverage {
 	hostile.Slices = [][]model.Tok{univ.Tks(":", ":", "9223372036854775807"), univ.Tks("-9223372036854775808", ":"), univ.Tks(":", ":", "-9223372036854775808"), univ.Tks(":", "99999999999999999999")}
 	hostile.Filter, hostile.Star, hostile.Or, hostile.Not = true, true, true, true
 	hw := 4
+	// expression references in arbitrary operand positions (gap G1: no verdict on the value, but no panic either)
+	anyRef := &univ.Fragment{
+		Idents: univ.Tks("a"), Leaves: univ.Tks("@", "`1`"), Nums: univ.Tks("0"),
+		Funcs:  univ.Tks("contains", "not_null", "to_array", "type", "to_string", "sort_by", "map", "length", "merge", "max_by", "join", "keys"),
+		Cmps:   univ.Tks("==", "<"), Or: true, And: true, Not: true, Dot: true, Pipe: true, Flatten: true, WildIdx: true, Filter: true, Star: true,
+		FilterConds: [][]model.Tok{univ.Lx("&a"), univ.Lx("&a == &a"), univ.Lx("@")},
+		MaxList: 2, MaxHash: 1, MaxArgs: 2, MinArgs: 1, AmpAnywhere: true, Weight: univ.StructuralWeight,
+	}
+	// the same with a tiny alphabet, deeper: parenthesised references compared, nested in lists and calls
+	anyRefDeep := &univ.Fragment{
+		Idents: univ.Tks("a"), Leaves: univ.Tks("@"), Funcs: univ.Tks("contains", "sort_by"),
+		Cmps: univ.Tks("=="), Or: true, Not: true, Paren: true, Pipe: true, WildIdx: true,
+		MaxList: 2, MaxArgs: 2, MinArgs: 2, AmpAnywhere: true, Weight: univ.StructuralWeight,
+	}
 	var gen int64
 	for _, part := range []struct {
 		f    *univ.Fragment
 		maxW int
-	}{{hostile, hw}, {univ.ProjFragment(), 4}, {univ.CoreFragment(), 4}, {univ.ErrFragment(errCompounds), 4}} {
+	}{{hostile, hw}, {univ.ProjFragment(), 4}, {univ.CoreFragment(), 4}, {univ.ErrFragment(errCompounds), 4}, {anyRef, 5}, {anyRefDeep, 7}} {
 		g := univ.NewGen(part.f)
 		for wt := 1; wt <= part.maxW; wt++ {
 			ss := g.Sentences(wt)
